@@ -18,12 +18,14 @@ import vlib
 
 TAG = "x18"
 CFG = {
-    "quick": dict(mc=[("MC_PolyTransform.cfg", "one dimension"), ("MC_PolyTransform_2.cfg", "two dimensions, any lengths")],
-                  gen=["Gen_PolyTransform.cfg", "Gen_PolyTransform_2.cfg", "Gen_PolyTransform_u.cfg"],
+    "quick": dict(mc=[("MC_PolyTransform.cfg", "one dimension"), ("MC_PolyTransform_2.cfg", "two dimensions, any lengths"),
+                      ("MC_PolyTransform_n.cfg", "log, negative decades, non-integral limit exponents")],
+                  gen=["Gen_PolyTransform.cfg", "Gen_PolyTransform_2.cfg", "Gen_PolyTransform_u.cfg", "Gen_PolyTransform_n.cfg"],
                   nrand=250, nlong=6),
     "thorough": dict(mc=[("MC_PolyTransform_t.cfg", "one dimension"), ("MC_PolyTransform_2_t.cfg", "two dimensions, any lengths"),
-                         ("MC_PolyTransform_u_t.cfg", "short second dimension")],
-                     gen=["Gen_PolyTransform_t.cfg", "Gen_PolyTransform_2_t.cfg", "Gen_PolyTransform_u_t.cfg"],
+                         ("MC_PolyTransform_u_t.cfg", "short second dimension"),
+                         ("MC_PolyTransform_n_t.cfg", "log, negative decades, non-integral limit exponents")],
+                     gen=["Gen_PolyTransform_t.cfg", "Gen_PolyTransform_2_t.cfg", "Gen_PolyTransform_u_t.cfg", "Gen_PolyTransform_n_t.cfg"],
                      nrand=2500, nlong=30),
 }
 ZERO, NEG = -1048576, -1048577
@@ -67,6 +69,14 @@ def signature(beh, step, rec, why, fld=None):
         cls.append("nonpos")
     if not arg.get("ranged"):
         cls.append("norange")
+    ks = arg.get("kind") or []
+    logs = [v for d, k in zip((d1, d2), ks) if k.startswith("log") for v in d if v > ZERO]
+    if any(k.startswith("log") for k in ks) and (arg.get("lmin2", 0) % 2 or arg.get("lmax2", 0) % 2):
+        cls.append("fraclimit")      # limit exponents that are not whole decades
+    if any(v < 0 for v in logs):
+        cls.append("negdecade")
+    if "log2" in ks and any(v % 2 for v in logs):
+        cls.append("between")        # values between the decades
     if max(len(d1), len(d2)) > 32:
         cls.append("long" if max(len(d1), len(d2)) > 4096 else "mid")
     if why in ("Crash", "Hang", "Garbled", "Missing"):
@@ -121,11 +131,21 @@ def validate(ck, behs, recs, tag, what):
 # --------------------------------------------------------------------------
 # binding B inputs: call sequences only (positions; the driver turns a position of a log dimension into 10^e)
 # --------------------------------------------------------------------------
+def init_step(kinds, d1, d2, lo, hi, ranged=1, lmin2=None, lmax2=None):
+    """lmin2 / 2, lmax2 / 2: limit exponents given to a log dimension (default: the whole decades lo, hi)"""
+    half = 1 if "log2" in kinds else 2
+    return {"a": "init", "arg": {"data": d1, "data2": d2, "lo": lo, "hi": hi, "ranged": ranged, "lim": 65535, "kind": kinds,
+                                 "lmin2": half * lo if lmin2 is None else lmin2, "lmax2": half * hi if lmax2 is None else lmax2}}
+
+
+BOUNDS = {"log": (-12, 22), "log2": (-24, 44)}     # positions that have a value in the driver's tables
+
+
 def rand_dim(rng, kind, n, lo, hi):
     out = []
-    log = kind == "log"
-    top = 22 if log else 2000
-    bot = 0 if log else -2000
+    log = kind in BOUNDS
+    bot, top = BOUNDS.get(kind, (-2000, 2000))
+    step = 2 if kind == "log2" else 1
     for _ in range(n):
         k = rng.random()
         if out and k < 0.15:
@@ -133,7 +153,7 @@ def rand_dim(rng, kind, n, lo, hi):
         elif k < 0.30:
             v = rng.choice([lo, hi])
         elif k < 0.42:
-            v = rng.choice([lo - 1, hi + 1, lo - 2, hi + 3])
+            v = rng.choice([lo - 1, hi + 1, lo - 2, hi + 3, lo + 1, lo - step, hi + step])
         elif k < 0.80:
             v = rng.randrange(min(lo, hi), max(lo, hi) + 1)
         elif log and k < 0.88:
@@ -152,8 +172,22 @@ def core_runs():
     behs = []
 
     def run(kinds, d1, d2, act, lo=1, hi=3):
-        behs.append([{"a": "init", "arg": {"data": d1, "data2": d2, "lo": lo, "hi": hi, "ranged": 1, "lim": 65535, "kind": kinds}},
-                     {"a": act, "arg": {"x": 0}}])
+        behs.append([init_step(kinds, d1, d2, lo, hi), {"a": act, "arg": {"x": 0}}])
+
+    # limits of a log dimension given as negative, non-integral exponents (rounded outward to whole decades), values on
+    # and between the decade boundaries around them
+    for lmin2, lmax2 in ((-3, 1), (-3, 2), (-4, 1), (-5, -1), (-1, 3), (1, 5)):
+        lo, hi = lmin2 // 2, -((-lmax2) // 2)
+        seq = [lo - 1, lo, lo + 1, hi, hi + 1, lo, lo - 1, lo - 1, lo + 1, hi + 1, hi, ZERO, lo]
+        for act in ("tpoly", "tapply"):
+            behs.append([init_step(["log"], seq, [], lo, hi, 1, lmin2, lmax2), {"a": act, "arg": {"x": 0}}])
+            behs.append([init_step(["lin-", "log"], [v if v > ZERO else lo for v in seq[:9]], seq[4:], lo, hi, 1, lmin2, lmax2), {"a": act, "arg": {"x": 0}}])
+        # half decades: odd positions are values between the decades (3 * 10^e)
+        lo2, hi2 = 2 * lo, 2 * hi
+        seq2 = [lo2 - 2, lo2 - 1, lo2, lo2 + 1, lo2 + 2, hi2 - 1, hi2, hi2 + 1, hi2 + 2, lo2 + 1, lo2 - 1, lo2 + 1, hi2 - 1, hi2 + 1, lo2 + 2]
+        for act in ("tpoly", "tapply"):
+            behs.append([init_step(["log2"], seq2, [], lo2, hi2, 1, lmin2, lmax2), {"a": act, "arg": {"x": 0}}])
+            behs.append([init_step(["log2", "log2"], seq2[3:], list(reversed(seq2)), lo2, hi2, 1, lmin2, lmax2), {"a": act, "arg": {"x": 0}}])
 
     for kind in ("lin+", "lin-", "log"):
         for n in (31, 32, 33, 34, 64, 65, 66, 97):
@@ -181,14 +215,22 @@ def gen_random(ck, n):
     for _ in range(n):
         nd = rng.choice([1, 1, 2])
         kinds = [rng.choice(["lin+", "lin-", "log", "log"]) for _ in range(nd)]
+        if rng.random() < 0.2:
+            kinds = ["log2"] * nd          # half decades: every dimension logarithmic
         anylog = "log" in kinds
-        if anylog:
-            lo = rng.randrange(0, 20)
+        lmin2 = lmax2 = None
+        if kinds[0] == "log2":
+            lo = 2 * rng.randrange(-10, 18)
+            hi = min(44, lo + 2 * rng.choice([0, 1, 2, 3, 8]))
+            lmin2, lmax2 = lo + rng.choice([0, 1]), hi - rng.choice([0, 1])     # rounded outward: lo, hi
+        elif anylog:
+            lo = rng.randrange(-10, 20)
             hi = min(22, lo + rng.choice([0, 1, 2, 3, 8]))
+            lmin2, lmax2 = 2 * lo + rng.choice([0, 1]), 2 * hi - rng.choice([0, 1])
         else:
             lo = rng.randrange(-1500, 1500)
             hi = min(2000, lo + rng.choice([0, 1, 2, rng.randrange(1, 600)]))
-        if rng.random() < 0.04:
+        if rng.random() < 0.04 and lmin2 is None:
             lo, hi = hi, lo
         ln = rng.choice([1, 2, 3, 4, 5, 6, 8, 12, 20, 31, 32, 33, 34, 40, 63, 64, 65, 66, 97, 130])
         ranged = 0 if rng.random() < 0.06 else 1
@@ -205,12 +247,13 @@ def gen_random(ck, n):
             mid = (lo + hi) // 2
             d1 = [mid if rng.random() < 0.93 else v for v in d1]
             if d1 and rng.random() < 0.7:
-                ends = [lo - 1, hi + 1] + ([ZERO] if kinds[0] == "log" and ranged else [])
-                if kinds[0] == "log":      # positions of a log dimension are the exponents 0..22
-                    ends = [v for v in ends if v == ZERO or 0 <= v <= 22] or [lo]
+                ends = [lo - 1, hi + 1] + ([ZERO] if kinds[0] in BOUNDS and ranged else [])
+                if kinds[0] in BOUNDS:      # positions that have a value
+                    b = BOUNDS[kinds[0]]
+                    ends = [v for v in ends if v == ZERO or b[0] <= v <= b[1]] or [lo]
                 d1[-1] = rng.choice(ends)
             d2 = [mid if rng.random() < 0.93 else v for v in d2]
-        beh = [{"a": "init", "arg": {"data": d1, "data2": d2, "lo": lo, "hi": hi, "ranged": ranged, "lim": 65535, "kind": kinds}},
+        beh = [init_step(kinds, d1, d2, lo, hi, ranged, lmin2, lmax2),
                {"a": rng.choice(["tpoly", "tpoly", "tapply"]), "arg": {"x": 0}}]
         behs.append(beh)
     return behs
@@ -248,7 +291,7 @@ def gen_long(ck, n):
             for p in {rng.choice([0, 1, 65531, 65532, 65533, 65534, 65535, len(d2) - 1]) for _ in range(3)}:
                 if p < len(d2):
                     d2[p] = rng.choice([0, 4])
-        beh = [{"a": "init", "arg": {"data": data, "data2": d2, "lo": lo, "hi": hi, "ranged": 1, "lim": 65535, "kind": kinds}},
+        beh = [init_step(kinds, data, d2, lo, hi),
                {"a": "tpoly" if k % 2 else "tapply", "arg": {"x": 0}}]
         behs.append(beh)
     return behs
@@ -324,6 +367,8 @@ def run_part(ck, tier):
     longs = gen_long(ck, cfg["nlong"])
     recs_h, _ = vlib.run_driver(exe, vlib.to_script(hist), timeout=1200)
     recs_l, _ = vlib.run_driver(exe, vlib.to_script(longs), timeout=1200)
+    if any(r.get("a") == "init" and (r.get("obs") or {}).get("x") for r in recs_h + recs_l):
+        raise vlib.MachineryError("x18: a generated position has no value in the driver's tables")
     nev = validate(ck, hist, recs_h, "Trace_PolyTransform-B", "B(trace)")
     nev += validate(ck, longs, recs_l, "Trace_PolyTransform-L", "B(long)")
     byh = vlib.group_records(recs_h)
@@ -360,6 +405,10 @@ def replay(det, path):
         print(json.dumps(det, indent=1)[:4000])
         return 2
     exe = build()
+    a0 = beh[0].setdefault("arg", {})
+    half = 1 if "log2" in (a0.get("kind") or []) else 2
+    a0.setdefault("lmin2", half * a0.get("lo", 0))
+    a0.setdefault("lmax2", half * a0.get("hi", 0))
     recs, _ = vlib.run_driver(exe, vlib.to_script([beh]))
     ck = vlib.Check("C18", "replay")
     ck.findings = []
